@@ -620,6 +620,11 @@ bool expression_t::equal(const expression_t& e) const
         return false;
     }
 
+    // 'true' and '1' store the same value; they differ in the type of the constant
+    if (data->kind == CONSTANT && data->type.isBoolean() != e.data->type.isBoolean()) {
+        return false;
+    }
+
     for (uint32_t i = 0; i < get_size(); i++) {
         if (!data->sub[i].equal(e[i])) {
             return false;
